@@ -99,6 +99,7 @@ type gRun struct {
 	slotInfo map[string][3]string // "row.slot" → kind,target,tagkind+tag
 	appRow   int
 	nodesObj []node
+	rank2    map[string]int
 }
 
 // rowNames: universe nodes first (scenario order), then every other registered component sorted by name.
@@ -157,12 +158,19 @@ func runGraph(sc *gScen) *gRun {
 	for pos, row := range rng.Perm(len(names)) {
 		rank2[names[row]] = pos
 	}
+	// the observing processor is registered first among the unordered processors, so that it is active for every
+	// later boot-phase creation (the model's `wired`/`logged` then need no third state)
+	rank2[framework_helper.GetComponentName(obs)] = -1
+	res.rank2 = rank2
 	tr := &traceSCR{SingletonComponentRegistry: support.DefaultSingletonComponentRegistry(), created: map[string]bool{},
 		short: func(n string) string { return strconv.Itoa(res.rowOf[n]) }}
 	var dr container.DefinitionRegistry = &permDR{DefinitionRegistry: support.DefaultDefinitionRegistry(), rank: rank}
 	var sr container.SingletonRegistry = &permSR{SingletonRegistry: support.NewRegistry(), rank: rank2}
 	if sc.natural {
-		dr, sr = support.DefaultDefinitionRegistry(), support.NewRegistry()
+		// Go's own map order everywhere — except that the observing/wrapping processor of the harness still registers first
+		// among the unordered processors (otherwise the harness's own fault injection would depend on the map order)
+		only := map[string]int{framework_helper.GetComponentName(obs): -1}
+		dr, sr = support.DefaultDefinitionRegistry(), &permSR{SingletonRegistry: support.NewRegistry(), rank: only}
 	}
 	fac := factory.NewWithRegistries(dr, tr)
 	a := app.NewApp()
@@ -269,11 +277,24 @@ func runGraph(sc *gScen) *gRun {
 	res.appRow = res.rowOf[framework_helper.GetComponentName(a)]
 	// boot list: priority-ordered universe post-processors (T14) first, then the observing processor
 	for i, n := range res.nodesObj {
-		if _, ok := n.(*T14); ok {
+		if isUnwired(n) {
 			res.boot = append(res.boot, i)
 		}
 	}
 	res.boot = append(res.boot, res.rowOf[framework_helper.GetComponentName(obs)])
+	{
+		var plain []int
+		for i, n := range res.nodesObj {
+			if _, ok := n.(*T18); ok {
+				plain = append(plain, i)
+			}
+		}
+		if sc.natural {
+			// natural order: the boot order of plain processors is Go's map order; such runs are oracle-only
+		}
+		sort.Slice(plain, func(a, b int) bool { return rank2[names[plain[a]]] < rank2[names[plain[b]]] })
+		res.boot = append(res.boot, plain...)
+	}
 	// slot descriptions
 	baseT := reflect.TypeOf(Base{})
 	for i, gn := range sc.nodes {
@@ -427,7 +448,7 @@ func (r *gRun) scenarioLine() string {
 	}
 	for i, n := range sc.nodes {
 		wired := 1
-		if _, ok := r.nodesObj[i].(*T14); ok {
+		if isUnwired(r.nodesObj[i]) {
 			wired = 0
 		}
 		recs = append(recs, fmt.Sprintf("N %d %d %s %s %s %d %d %d %d %d %d", i, n.ty, hx.Hex(n.cust), hx.Hex(n.q), hx.Hex(n.r),
@@ -523,7 +544,7 @@ func (r *gRun) oracles() []string {
 	}
 	unwired := map[int]bool{}
 	for i, n := range r.nodesObj {
-		if _, ok := n.(*T14); ok {
+		if isUnwired(n) {
 			unwired[i] = true
 		}
 	}
@@ -549,6 +570,24 @@ func (r *gRun) oracles() []string {
 		last[id] = rank[k]
 	}
 	r.matchOracles(add)
+	// C13: a failing runner ends the start with an error and nothing is invoked after it
+	for i, e := range r.events {
+		if e[0] != 'r' {
+			continue
+		}
+		ri, _ := strconv.Atoi(e[1:])
+		if ri < len(r.sc.nodes) && r.sc.nodes[ri].flt&fltRun != 0 {
+			if r.status != "err.runners" {
+				add("c13-error", "runner node %d returned an error but Run ended with %s", ri, r.status)
+			}
+			for _, later := range r.events[i+1:] {
+				if later[0] == 'r' {
+					add("c13-error", "runner %s invoked after runner node %d had failed", later, ri)
+				}
+			}
+			break
+		}
+	}
 	if strings.HasPrefix(r.status, "err.") && r.status != "err.runners" {
 		for _, e := range r.events {
 			if e[0] == 'r' {
